@@ -1735,7 +1735,9 @@ func ReadTerm(vm *VM, streamOrAlias, out, options Term, k Cont, env *Env) *Promi
 	p := NewParser(vm, s)
 
 	t, err := p.Term()
-	_ = s.UnreadRune() // Gives the lookahead back before the continuation reads from the stream.
+	if err != io.EOF { // Gives the lookahead back before the continuation reads from the stream, unless end_of_file is delivered.
+		_ = s.UnreadRune()
+	}
 	switch err {
 	case nil:
 		break
